@@ -55,7 +55,43 @@ Example C09_example :
         {| taken := [3%N]; cells := [CB 49%N; CB 50%N; CB 254%N; CH 1; CH 1; CB 253%N; CB 7%N]; nid := 2 |}).
 Proof. vm_compute. reflexivity. Qed.
 
+(* ---- the sink is the real iovec ----
+   The theorems above are about the encoder writing into an abstract sink (cells, holes named 0, 1, 2, ...) that a consumer
+   may drain cell by cell.  hcobs/SinkSim.v and iovec/GeoSink.v show that the geometry-faithful OwningIovec of iovec/Geo.v
+   (slices as pointers into arena chunks, merge decisions computed as in the source) implements that sink: push / push_copy /
+   register_patch / backfill produce, up to the renaming of hole ids, the cells the sink produces, and a Read hands out what a
+   sequence of drains of the sink hands out (whole slices before the pending header's slice: a particular drain schedule, so
+   the "any drain schedule" quantifier above covers it).  This discharges, for the models, the assumption "OwningIovec delivers
+   appended bytes in order with backfilled placeholders" under which C01 / C02 / C07 / C09 are stated. *)
+From WP Require hcobs.SinkSim iovec.Geo iovec.GeoSink.
+Theorem C09_geo_sink_push m s h g bs h' g' :
+  GeoSink.GS m s h g -> Geo.push h (Geo.SExt bs) g = Some (h', g') -> GeoSink.GS m (s_push s bs) h' g'.
+Proof. exact (GeoSink.geo_sink_push m s h g bs h' g'). Qed.
+Theorem C09_geo_sink_push_copy m s h g bs h' g' :
+  GeoSink.GS m s h g -> Geo.push_copy h bs g = Some (h', g') -> GeoSink.GS m (s_push s bs) h' g'.
+Proof. exact (GeoSink.geo_sink_push_copy m s h g bs h' g'). Qed.
+Theorem C09_geo_sink_register m s h g pat h' g' b :
+  GeoSink.GS m s h g -> pat <> [] -> Geo.register_patch h pat g = Some (h', g', b) ->
+  exists m', GeoSink.GS m' (fst (s_register s (length pat))) h' g' /\
+             option_map (fun b => N.to_nat (Geo.bend b)) b = Some (m' (snd (s_register s (length pat)))) /\
+             (forall id, id < nid s -> m' id = m id).
+Proof. exact (GeoSink.geo_sink_register m s h g pat h' g' b). Qed.
+Theorem C09_geo_sink_backfill m s h g id b bs s' h' g' :
+  GeoSink.GS m s h g -> id < nid s -> N.to_nat (Geo.bend b) = m id ->
+  s_backfill s id bs = Ok s' -> Geo.backfill h (Some b) bs g = Some (h', g') -> GeoSink.GS m s' h' g'.
+Proof. exact (GeoSink.geo_sink_backfill m s h g id b bs s' h' g'). Qed.
+Theorem C09_geo_sink_read m s h g n g' out :
+  GeoSink.GS m s h g -> Geo.read h n g = Some (g', out) ->
+  exists ks, GeoSink.GS m (fold_left s_drain ks s) h g' /\ taken (fold_left s_drain ks s) = taken s ++ out.
+Proof. exact (GeoSink.geo_sink_read m s h g n g' out). Qed.
+Theorem C09_geo_sink_init m : GeoSink.GS m s_empty [] Geo.empty_iov.
+Proof. exact (GeoSink.GS_empty m). Qed.
+
 Print Assumptions C09_encoder_prefix_and_lag.
+Print Assumptions C09_geo_sink_push.
+Print Assumptions C09_geo_sink_register.
+Print Assumptions C09_geo_sink_backfill.
+Print Assumptions C09_geo_sink_read.
 Print Assumptions C09_encoder_complete.
 Print Assumptions C09_decoder_prefix.
 Print Assumptions C09_encoder_lag_prod.
